@@ -17,6 +17,8 @@ for name in sorted(mx):
     needs = meta["what_it_needs_to_manifest"][:160].replace("|", "/")
     fired = mx[name]["fired"]
     rep = "; ".join("%s: %s" % (p, ", ".join(sorted({k.split("|")[0] for k in ks}))) for p, ks in sorted(fired.items())) or "**not detected**"
+    if meta.get("superseded"):
+        rep = "superseded: no longer a breaking change on the repaired tree (see seeded/%s/SUPERSEDED.md)" % name
     ml.append("| %s | %s | %s | %s |" % (name, name[:3], needs, rep))
 seeds_md = "\n".join(ml)
 p = os.path.join(V, "DESIGN.md")
